@@ -29,7 +29,7 @@ func init() {
 			return 500
 		},
 		Batch:  func(t string) int { return 25 },
-		Floors: []string{"hist_fresh_twice", "hist_reset_after_close", "hist_reset_after_abandon", "hist_reset_after_failed_sink", "hist_other_goroutine", "hist_buffer_reuse", "hist_sorting_writer_reuse", "xvariant_digests_joined", "stride_multiple_page_counts"},
+		Floors: []string{"hist_fresh_twice", "hist_reset_after_close", "hist_reset_after_abandon", "hist_reset_after_failed_sink", "hist_other_goroutine", "hist_buffer_reuse", "hist_sorting_writer_reuse", "sorting_writer_abandoned_chunk", "sorting_writer_dedupe", "xvariant_digests_joined", "stride_multiple_page_counts"},
 		Rule: "case = (catalogue type without maps, rows, option combination); the same (rows, options) are written by a fresh writer twice, after unrelated writes, by a writer reused through Reset after a completed / abandoned / failed " +
 			"previous file with different content, from another goroutine, through reused GenericBuffer/RowBuffer/SortingWriter; all digests must be equal, and the fresh digest is joined across the std, purego and noavx builds. " +
 			"Distinct = descriptor hash; non-trivial = >= 1 row",
@@ -308,7 +308,13 @@ func runC17(c *Ctx) {
 		} else {
 			c.Obs("sorting_writer_other_keys", 1)
 		}
-		sortOpts := append([]parquet.WriterOption{parquet.SortingWriterConfig(parquet.SortingColumns(keys...))}, os.Opts...)
+		sortCfg := []parquet.SortingOption{parquet.SortingColumns(keys...)}
+		dedupe := r.Bool()
+		if dedupe {
+			sortCfg = append(sortCfg, parquet.DropDuplicatedRows(true))
+			c.Obs("sorting_writer_dedupe", 1)
+		}
+		sortOpts := append([]parquet.WriterOption{parquet.SortingWriterConfig(sortCfg...)}, os.Opts...)
 		run := gen.Pick(r, []int64{1, 7, 100})
 		one := func(w gsortingwriter, rows reflect.Value) error {
 			if _, err := te.ops.SortingWrite(w, rows); err != nil {
@@ -332,6 +338,28 @@ func runC17(c *Ctx) {
 		}
 		if !bytes.Equal(f0.Bytes(), f2.Bytes()) {
 			return nil, fmt.Errorf("SortingWriter reused through Reset produced different bytes: len %d vs %d, first difference at %d", f0.Len(), f2.Len(), firstDiffOffset(f0.Bytes(), f2.Bytes()))
+		}
+		// a writer given up after a chunk was sorted (explicit Flush, no Close), whose largest row is the
+		// smallest row of the file written next
+		if f0rows, err := te.ops.ReadAll(bytes.NewReader(f0.Bytes()), int64(f0.Len())); err == nil && f0rows.Len() > 0 {
+			var f3 bytes.Buffer
+			w2 := te.ops.NewSortingWriter(io.Discard, run, sortOpts...)
+			if _, err := te.ops.SortingWrite(w2, f0rows.Slice(0, 1)); err != nil {
+				return nil, err
+			}
+			if r.Bool() {
+				if err := w2.Flush(); err != nil {
+					return nil, err
+				}
+			}
+			w2.Reset(&f3)
+			if err := one(w2, rows); err != nil {
+				return nil, err
+			}
+			if !bytes.Equal(f0.Bytes(), f3.Bytes()) {
+				return nil, fmt.Errorf("SortingWriter reused through Reset after an abandoned chunk (dedupe=%v) produced different bytes: len %d vs %d, first difference at %d", dedupe, f0.Len(), f3.Len(), firstDiffOffset(f0.Bytes(), f3.Bytes()))
+			}
+			c.Obs("sorting_writer_abandoned_chunk", 1)
 		}
 		c.Digest("sorting", f0.Bytes())
 		return ref, nil
